@@ -74,6 +74,59 @@ pub fn uni_to(r: &huginn_net::output::FingerprintResult) -> Value {
     })
 }
 
+/// analyze_pcap of one analyzer on a file, on its own thread: {"ok": returned Ok, "results": [...]} or {"hung": true, "results": what had arrived}
+fn file_run(krate: &str, path: &str, db: Arc<huginn_net_db::Database>, with_db: bool, cap: usize, wait_ms: u64) -> Value {
+    fn collect<T: Send + 'static>(work: impl FnOnce(std::sync::mpsc::Sender<T>) -> Result<bool, String> + Send + 'static, conv: fn(&T) -> Value, wait_ms: u64) -> Value {
+        let (tx, rx) = std::sync::mpsc::channel::<T>();
+        let (done_tx, done_rx) = std::sync::mpsc::channel();
+        std::thread::spawn(move || {
+            let _ = done_tx.send(guarded(|| work(tx)));
+        });
+        match done_rx.recv_timeout(std::time::Duration::from_millis(wait_ms)) {
+            Ok(Ok(Ok(ok))) => json!({"ok": ok, "results": rx.try_iter().map(|r| conv(&r)).collect::<Vec<_>>()}),
+            Ok(Ok(Err(e))) => json!({"ctor_error": e, "results": []}),
+            Ok(Err(p)) => json!({"panic": p}),
+            Err(_) => json!({"hung": true, "results": rx.try_iter().map(|r| conv(&r)).collect::<Vec<_>>()}),
+        }
+    }
+    let p = path.to_string();
+    match krate {
+        "tcp" => collect(
+            move |tx| {
+                let mut a = huginn_net_tcp::HuginnNetTcp::new(if with_db { Some(db) } else { None }, cap).map_err(|e| e.to_string())?;
+                Ok(a.analyze_pcap(&p, tx, None).is_ok())
+            },
+            |r: &huginn_net_tcp::TcpAnalysisResult| crate::m_tcp::result_to(r),
+            wait_ms,
+        ),
+        "http" => collect(
+            move |tx| {
+                let mut a = huginn_net_http::HuginnNetHttp::new(if with_db { Some(db) } else { None }, cap).map_err(|e| e.to_string())?;
+                Ok(a.analyze_pcap(&p, tx, None).is_ok())
+            },
+            |r: &huginn_net_http::HttpAnalysisResult| http_result_to(r),
+            wait_ms,
+        ),
+        "tls" => collect(
+            move |tx| {
+                let mut a = huginn_net_tls::HuginnNetTls::new(cap);
+                Ok(a.analyze_pcap(&p, tx, None).is_ok())
+            },
+            |r: &huginn_net_tls::TlsClientOutput| crate::m_tls::output_to(r),
+            wait_ms,
+        ),
+        "uni" => collect(
+            move |tx| {
+                let mut a = huginn_net::HuginnNet::new(if with_db { Some(db.as_ref()) } else { None }, cap, None).map_err(|e| e.to_string())?;
+                Ok(a.analyze_pcap(&p, tx, None).is_ok())
+            },
+            |r: &huginn_net::output::FingerprintResult| uni_to(r),
+            wait_ms,
+        ),
+        c => panic!("crate {c}"),
+    }
+}
+
 pub fn run(input: &mut dyn BufRead, out: &mut dyn Write, _args: &[String]) -> R {
     let db = Arc::new(huginn_net_db::Database::load_default().map_err(|e| e.to_string())?);
     let dir = std::env::var("HV_PCAP_DIR").unwrap_or_else(|_| "/verif/.work/pcap".to_string());
@@ -170,6 +223,21 @@ pub fn run(input: &mut dyn BufRead, out: &mut dyn Write, _args: &[String]) -> R 
                 }
                 Err(e) => json!({"id": id, "panic": e}),
             };
+            writeln!(out, "{o}").map_err(|e| e.to_string())?;
+            continue;
+        }
+        if let Some(fb) = v.get("file") {
+            // X04: the octets of a capture file given as they are; analyze_pcap runs on a thread of its own so that a front end which
+            // does not return is an observation ("hung") instead of the end of this process
+            let bytes = blob(fb);
+            std::fs::write(&path, &bytes).map_err(|e| e.to_string())?;
+            let o = file_run(&krate, &path, Arc::clone(&db), with_db, cap, v["wait_ms"].as_u64().unwrap_or(5000));
+            let _ = std::fs::remove_file(&path);
+            let mut o = o;
+            o["id"] = id;
+            if o["hung"].as_bool() == Some(true) {
+                hangs += 1;
+            }
             writeln!(out, "{o}").map_err(|e| e.to_string())?;
             continue;
         }
